@@ -182,9 +182,23 @@ def evaluate(t, env, W, cv=dec, double=False):
                     raise Outside("division by zero")
                 q = a / b
                 out |= {a - b * tgrid(q, 1), a - b * fgrid(q, 1)}
+    pu = pure_unsigned(t)
     for v in out:
         fitW(v * FB, W, "scaled intermediate")
+        if pu and v < 0:
+            raise Outside("negative result of unsigned operands")
     return out
+
+
+def pure_unsigned(t):
+    """an integer sub-expression built from unsigned variables and
+    non-negative integer constants only: its value has to fit the unsigned
+    range as well, i.e. must not be negative"""
+    if t[0] == "const":
+        return not isinstance(t[1], float) and t[1] >= 0
+    if is_leaf(t):
+        return not ltype(t)[1]
+    return pure_unsigned(t[1]) and pure_unsigned(t[2])
 
 
 def dest_type(d):
@@ -199,9 +213,9 @@ def width_of(trees, dest=None):
     return 32 if sizes and min(sizes) <= 4 else 64
 
 
-def expected(tree, dest, env, cv=dec):
+def expected(tree, dest, env, cv=dec, W=None):
     """-> set of acceptable stored bit patterns, or raises Outside"""
-    W = width_of([tree], dest)
+    W = W or width_of([tree], dest)
     vals = evaluate(tree, env, W, cv)
     size, _, dfixed = dest_type(dest)
     out = set()
@@ -211,14 +225,14 @@ def expected(tree, dest, env, cv=dec):
         else:
             cand = {tgrid(v, 1), fgrid(v, 1)}
         for c in cand:
-            fitW(c if not dfixed else c, W, "stored value")
+            fitW(c, W, "stored value")
             out.add(int(c) & ((1 << (8 * size)) - 1))
     return out
 
 
-def expected_truth(op, lt, rt, env, cv=dec):
+def expected_truth(op, lt, rt, env, cv=dec, W=None):
     """-> set of acceptable truth values of a comparison"""
-    W = width_of([lt, rt])
+    W = W or width_of([lt, rt])
     ls, rs = evaluate(lt, env, W, cv), evaluate(rt, env, W, cv)
     return {CMP[op](a, b) for a in ls for b in rs}
 
@@ -405,11 +419,11 @@ def run_case(tree, dest, alias, envs, res, kernel=False):
         except kern.LoadError:
             res.count("kernel_rejected")
 
-    def oracle(env, cv):
+    def oracle(env, cv, W=None):
         if iscmp:
-            ts = expected_truth(tree[1], tree[2], tree[3], env, cv)
+            ts = expected_truth(tree[1], tree[2], tree[3], env, cv, W)
             return {((1 if t else 2), 7) for t in ts}
-        return expected(tree, dest, env, cv)
+        return expected(tree, dest, env, cv, W)
 
     variants = {}
     recorded = {}
@@ -497,7 +511,15 @@ def run_case(tree, dest, alias, envs, res, kernel=False):
                     exp2 = oracle(env, dec_truncated if KF_CONST in combo
                                   else dec)
                 except Outside:
-                    continue
+                    # with the truncated constant an intermediate may leave
+                    # the narrow range; the prediction itself is still exact
+                    try:
+                        exp2 = oracle(env, dec_truncated, 64) \
+                            if KF_CONST in combo else None
+                    except Outside:
+                        exp2 = None
+                    if exp2 is None:
+                        continue
                 if set(combo) - {KF_CONST}:
                     obs2 = vm_variant(env, KF_SX in combo, KF_DIV in combo,
                                       KF_WIDE in combo)
@@ -658,6 +680,9 @@ def work_d2(item, res):
     for op2 in ARITH:
         for tree in ((op2, (op1, a, b), c), (op1, a, (op2, b, c))):
             for dest in dests:
+                if not (dest_type(dest)[2] or "/" in (op1, op2) or
+                        any(is_fixed(l) for l in (a, b, c))):
+                    continue        # pure integer programs belong to C01
                 n += 1
                 run_case(tree, dest, None, envs_for([tree]), res,
                          n % kernel_every == 0)
@@ -667,6 +692,8 @@ def work_cmpx(item, res):
     """comparisons whose sides are expressions"""
     a, b, c, op1, cmps, seed, kernel_every, cap = item
     n = 0
+    if not (op1 == "/" or any(is_fixed(l) for l in (a, b, c))):
+        return                      # pure integer comparisons: C01/C03
     for op in cmps:
         for tree in (("cmp", op, (op1, a, b), c), ("cmp", op, c, (op1, a, b))):
             n += 1
@@ -745,10 +772,10 @@ def work_const(item, res):
             cmpimm = sx(ins[4], 32)
         got = dict(reg=sx(outs[3 * j], 64), mem=sx(outs[3 * j + 1], 64),
                    add=sx(outs[3 * j + 2], 64), cmp=cmpimm)
+        res.nontrivial.add(core.digest(["const", sign, ip, k]))
         for path, g in got.items():
             res.count("evaluations")
             res.count("checked")
-            res.nontrivial.add(core.digest(["const", path, sign, ip, k]))
             if g == w:
                 res.outcomes.add(("const-ok", path))
                 continue
